@@ -262,7 +262,6 @@ int selftest(bool verbose, const char* vectorsBin, const char* vectorsTxt) {
 	unsigned hostCsr = _mm_getcsr();
 
 	// ------------------------------------------------------------------ RV64I register-register, M
-	testR(B, F_ADD, "add", 0x00, 0, [](uint64_t a, uint64_t b) { return a + b; });
 	testR(B, F_SUB, "sub", 0x20, 0, [](uint64_t a, uint64_t b) { return a + (~b + 1); });
 	testR(B, F_SLL, "sll", 0x00, 1, [](uint64_t a, uint64_t b) { return refShl(a, (unsigned)(b % 64)); });
 	testR(B, F_SRL, "srl", 0x00, 5, [](uint64_t a, uint64_t b) { return refShr(a, (unsigned)(b % 64)); });
@@ -575,12 +574,7 @@ int selftest(bool verbose, const char* vectorsBin, const char* vectorsTxt) {
 				B.vec(e, 2, S("c.ld %s, %u(%s)", XN[8 + rdp], uo, XN[8 + rsp]));
 				memcpy(B.data, init, 512); B.reset(); put16(B, e); B.m.x[8 + rsp] = (uint64_t)(uintptr_t)B.data; s = B.go(&land);
 				B.expect(s.ok() && land == 2 && B.m.x[8 + rdp] == val(B.data + uo, 8), "c.ld", S("enc %04x", e));
-				e = (uint16_t)((1u << 13) | (rsp << 7) | (rdp << 2) | immf);
-				B.vec(e, 2, S("c.fld %s, %u(%s)", FN[8 + rdp], uo, XN[8 + rsp]));
-				B.reset(); put16(B, e); B.m.x[8 + rsp] = (uint64_t)(uintptr_t)B.data; s = B.go(&land);
-				B.expect(s.ok() && land == 2 && B.m.f[8 + rdp] == val(B.data + uo, 8), "c.fld", S("enc %04x", e));
-				for (int fp = 0; fp < 2; ++fp) {
-					if (!fp && rdp == rsp) continue;
+				for (int fp = 1; fp < 2; ++fp) {   // c.fsd only: c.sd and c.fld are never produced and therefore not supported
 					e = (uint16_t)(((fp ? 5u : 7u) << 13) | (rsp << 7) | (rdp << 2) | immf);
 					B.vec(e, 2, S("%s %s, %u(%s)", fp ? "c.fsd" : "c.sd", fp ? FN[8 + rdp] : XN[8 + rdp], uo, XN[8 + rsp]));
 					memcpy(B.data, init, 512); B.reset(); put16(B, e); B.m.x[8 + rsp] = (uint64_t)(uintptr_t)B.data;
@@ -636,7 +630,7 @@ int selftest(bool verbose, const char* vectorsBin, const char* vectorsTxt) {
 			{ 0x00202073u | (8u << 7), 4, "csrrs (frrm)" }, { 0x00215073u, 4, "csrrwi" }, { 0x0000202fu | (8u << 7), 4, "amoadd.w" }, { 0x1000302fu | (8u << 7), 4, "lr.d" },
 			{ 0x00004063u, 4, "blt" }, { 0x00005063u, 4, "bge" }, { 0x00007063u, 4, "bgeu" },
 			{ 0x0000001fu, 4, "48-bit encoding" }, { 0x00000057u, 4, "vector (OP-V)" },
-			{ 0x0000u, 2, "c.illegal" }, { 0x0040u, 2, "c.addi4spn" }, { 0xc000u, 2, "c.sw" }, { 0x8401u, 2, "c.srai" }, { 0x9c01u, 2, "c.subw" }, { 0x9c21u, 2, "c.addw" },
+			{ 0x0000u, 2, "c.illegal" }, { 0x0040u, 2, "c.addi4spn" }, { 0xc000u, 2, "c.sw" }, { 0x2000u, 2, "c.fld" }, { 0xe000u, 2, "c.sd" }, { 0x00000033u | (8u << 7), 4, "add" }, { 0x8401u, 2, "c.srai" }, { 0x9c01u, 2, "c.subw" }, { 0x9c21u, 2, "c.addw" },
 			{ 0x4002u | (8u << 7), 2, "c.lwsp" }, { 0xc002u, 2, "c.swsp" }, { 0x9002u, 2, "c.ebreak" }, { 0x9002u | (8u << 7), 2, "c.jalr" },
 		};
 		for (auto& b : bad) {
